@@ -157,16 +157,32 @@ def schedules(scratch, name, prof, maxpre, limit, seed):
                          "distinct": r.get("distinct"), "generated": r.get("generated"), "max_preemptions": maxpre}
 
 
+def lock_class(name, kind):
+    return {"g": "gb" if kind == "W" else "gbR", "p": "p", "r": "ref"}.get(name[:1], "?")
+
+
 def held_at_gates(lks):
-    """(gate site, lock taken, locks held at that moment) for every acquisition of one operation"""
+    """(gate site, classes of the locks held including the one being taken) for every acquisition of one operation"""
     held, out = [], []
     for x in lks:
         if x["a"] == "acq":
-            out.append((x["g"], x["l"], tuple(sorted(held))))
-            held.append(x["l"])
-        elif x["l"] in held:
-            held.remove(x["l"])
+            held.append((x["l"], x["k"]))
+            out.append((x["g"], tuple(sorted(set(lock_class(l, k) for l, k in held)))))
+        else:
+            for h in held:
+                if h[0] == x["l"]:
+                    held.remove(h)
+                    break
     return out
+
+
+def gate_table(scratch):
+    """the locking discipline as specs/PoolConc.tla states it: allowed lock sets per acquisition site"""
+    r = vlib.tlc(scratch, "PoolConc", "PoolConc_gates.cfg", workers=1, timeout=300, tag="gates", jvm=("-Xmx1g", "-XX:ParallelGCThreads=2"))
+    rows = vlib.tlc_prints(r["out"], "GATES")
+    if not rows or r["violated"] or r["errors"]:
+        raise Infra("PoolConc gate table: %s %s\n%s" % (r["violated"], r["errors"][:2], r["out"][-1500:]))
+    return set((x["gate"], tuple(sorted(x["locks"]))) for x in json.loads(rows[-1]))
 
 
 def orders(conc):
@@ -306,8 +322,8 @@ def run(scratch, pid, tier, seed, names=None):
             raise Infra("no concurrent section recorded for scenario " + n)
         profs[n] = pr
         for lk in pr:
-            for g, l, held in held_at_gates(lk):
-                table.setdefault(g, set()).add((l[0], tuple(sorted(set(h[0] for h in held)))))
+            for g, classes in held_at_gates(lk):
+                table.setdefault(g, set()).add(classes)
     # 2. schedules from TLC
     maxpre, limit = (2, 40) if tier == "quick" else (3, 1500)
     with ThreadPoolExecutor(max_workers=8) as ex:
@@ -323,13 +339,23 @@ def run(scratch, pid, tier, seed, names=None):
     by2.update({k: v for k, v in by.items()})
     # 4. linearizations -> PoolTrace
     bad, verdict, js = judge(scratch, by2, "tvc")
+    # locks observed in the scheduled runs too (paths the solo runs did not take)
+    for sid, evs in by2.items():
+        for e in evs:
+            if e["op"] == "conc":
+                for lk in e.get("locks", []):
+                    for g, classes in held_at_gates(lk):
+                        table.setdefault(g, set()).add(classes)
+    declared = gate_table(scratch)
+    table_drift = sorted([g, list(c)] for g, v in table.items() for c in v if (g, c) not in declared)
     all_scripts = {s["id"]: s for s in solo + scripts}
     traces = {sid: [json.dumps(e) + "\n" for e in evs] for sid, evs in by2.items() if any(b["sid"] == sid for b in bad)}
     return {"bad": bad, "cnt": verdict["cnt"], "n": verdict["n"], "stats": stats, "scripts": all_scripts, "traces": traces,
             "summary": {"scenarios": names, "schedules_replayed": len(scripts), "sections_explained": js["explained"],
                         "sections_unexplained": len(bad), "linearizations_validated": js["linearizations"],
                         "real_deadlocks": js["hangs"], "schedule_steps_honoured": js["honoured"], "schedule_steps_not_honoured": js["drift"],
-                        "lock_table": {g: sorted([list(x[:1]) + [list(x[1])] for x in v]) for g, v in sorted(table.items())},
+                        "lock_table_observed": {g: sorted(list(x) for x in v) for g, v in sorted(table.items())},
+                        "lock_table_not_in_PoolConc": table_drift,
                         "wall": round(time.time() - t0, 1)}}
 
 
